@@ -214,6 +214,8 @@ func compareRequestHeaders(x *Exchange, got []bed.RawHeader, peerIP string, upgr
 		case hopByHop[n], x.connNamed[n], n == "authorization", strings.HasPrefix(n, "impersonate-"), n == "content-length", n == "host":
 			// hop-by-hop, nominated in Connection, credential, impersonation, framing: excepted by the statement
 		case n == "x-forwarded-for":
+		case h2 && n == "expect":
+			// a net/http HTTP/2 server (the TLS+h2 stub) consumes Expect: 100-continue itself and deletes the field
 		case n == "user-agent":
 			// net/http writes a single User-Agent line (the first value); an empty one is replaced by the gateway's own
 			if cm[n][0] != "" {
